@@ -2,6 +2,7 @@ package main
 
 import (
 	"bytes"
+	"errors"
 	"fmt"
 	"os"
 	"regexp"
@@ -23,9 +24,29 @@ type recSink struct {
 	source  string
 	closed  bool
 	sources int
+	// failEvery > 0: every failEvery-th Write fails (alternately with an error and with a short write) — a member
+	// with transient trouble; what it holds is not judged
+	failEvery int
+	// inflight/overlaps: Write entered while another Write on the same sink was still running
+	inflight atomic.Int32
+	overlaps atomic.Int64
 }
 
+var errSinkTrouble = errors.New("c13: transient sink failure")
+
 func (s *recSink) Write(p []byte) (int, error) {
+	if s.inflight.Add(1) > 1 {
+		s.overlaps.Add(1)
+	}
+	defer s.inflight.Add(-1)
+	if s.failEvery > 0 {
+		if k := s.writes.Add(1); k%int64(s.failEvery) == 0 {
+			if (k/int64(s.failEvery))%2 == 0 {
+				return 0, errSinkTrouble
+			}
+			return len(p) / 2, nil
+		}
+	}
 	if s.delay > 0 {
 		time.Sleep(s.delay)
 	}
